@@ -57,6 +57,9 @@ type c19Elem struct {
 	Name    string
 	Params  []c19Param
 	Results []string
+	// GivesConst: the element lets a client name or obtain a value of the unexported constant-only string type
+	// (an exported alias of it, or a function result / variable / field of that type)
+	GivesConst bool
 }
 
 var c19SafeTypes = map[string]bool{
@@ -114,6 +117,9 @@ func c19Surface(pkg *types.Package) []c19Elem {
 		}
 		for i := 0; i < s.Results().Len(); i++ {
 			e.Results = append(e.Results, c19TypeStr(s.Results().At(i).Type()))
+			if c19IsConstOnly(types.Unalias(s.Results().At(i).Type())) {
+				e.GivesConst = true
+			}
 		}
 	}
 	short := pkg.Name()
@@ -128,9 +134,14 @@ func c19Surface(pkg *types.Package) []c19Elem {
 			sig(&e, o.Type().(*types.Signature))
 			out = append(out, e)
 		case *types.Var:
-			out = append(out, c19Elem{Key: short + "." + name, Pkg: pkg.Path(), Kind: "var", Name: name, Results: []string{c19TypeStr(o.Type())}})
+			out = append(out, c19Elem{Key: short + "." + name, Pkg: pkg.Path(), Kind: "var", Name: name, Results: []string{c19TypeStr(o.Type())}, GivesConst: c19IsConstOnly(types.Unalias(o.Type()))})
 		case *types.TypeName:
-			named, ok := o.Type().(*types.Named)
+			if o.IsAlias() && c19IsConstOnly(types.Unalias(o.Type())) {
+				// an exported alias makes the unexported constant-only type nameable: T(runtimeString) then compiles
+				out = append(out, c19Elem{Key: short + "." + name + " [type alias]", Pkg: pkg.Path(), Kind: "alias", Name: name, Results: []string{c19TypeStr(types.Unalias(o.Type()))}, GivesConst: true})
+				continue
+			}
+			named, ok := types.Unalias(o.Type()).(*types.Named)
 			if !ok {
 				continue
 			}
@@ -150,7 +161,7 @@ func c19Surface(pkg *types.Package) []c19Elem {
 				for i := 0; i < st.NumFields(); i++ {
 					f := st.Field(i)
 					if f.Exported() {
-						out = append(out, c19Elem{Key: short + ".(" + name + ")." + f.Name() + " [field]", Pkg: pkg.Path(), Kind: "field", Recv: name, Name: f.Name(), Results: []string{c19TypeStr(f.Type())}})
+						out = append(out, c19Elem{Key: short + ".(" + name + ")." + f.Name() + " [field]", Pkg: pkg.Path(), Kind: "field", Recv: name, Name: f.Name(), Results: []string{c19TypeStr(f.Type())}, GivesConst: c19IsConstOnly(types.Unalias(f.Type()))})
 					}
 				}
 			}
@@ -296,6 +307,18 @@ func checkC19(r *core.Run) {
 		for _, p := range e.Params {
 			if c19RawParam(p.Type) || c19RawParam(strings.TrimPrefix(p.Type, "...")) {
 				raw = true
+			}
+		}
+		if e.GivesConst {
+			r.Witness("constant-type-obtainable", "", e.Key, fmt.Sprintf("%s (%s -> %v) lets a client name or obtain the unexported constant-only string type, so a conversion or call with a run-time string satisfies every constant-only parameter", e.Key, e.Kind, e.Results), nil)
+		}
+		if reviewed && class == "typed" {
+			// reviewed as taking only compile-time or already trusted material: every parameter must still be of such a type
+			for _, p := range e.Params {
+				t := strings.TrimPrefix(strings.TrimPrefix(p.Type, "..."), "*")
+				if !(p.Const || c19SafeTypes[t] || t == "embed.FS") {
+					r.Witness("typed-entry-point-weakened", "", e.Key, fmt.Sprintf("%s%v -> %v was reviewed as taking only compile-time embedded or already trusted material; parameter %q of type %s admits run-time content", e.Key, e.Params, e.Results, p.Name, p.Type), nil)
+				}
 			}
 		}
 		switch {
